@@ -404,6 +404,8 @@ def originParser (length : Int) (depth : Int) : P Bytes := do
   fieldName [79, 82, 73, 71, 73, 78] depth            -- "ORIGIN"
   let _ ← Pars.line
   Pars.clear
+  -- be672b0: `if length > maxOriginResidues { return error }` (the nine column index)
+  if length > 1000000020 then Pars.fail
   let n := toOriginLength length
   -- `state.Request(n)` with n < 0 "succeeds" and `state.Buffer()` slices with end < start
   if n < 0 then Pars.panic
